@@ -2,10 +2,10 @@ package props
 
 import (
 	"context"
-	"os"
 	"errors"
 	"fmt"
 	"net"
+	"os"
 	"sort"
 	"strings"
 	"sync"
@@ -61,9 +61,9 @@ func closeLink(l *schedLink) {
 func c26HandshakeCancel(preempt int, free bool) *explore.Scenario {
 	clients := c26Clients()
 	return &explore.Scenario{
-		Name:    "handshake-callers-and-cancellation",
-		Dedup:   !free,
-		Budget:  map[string]int{"preempt": preempt, "switch": preempt},
+		Name:   "handshake-callers-and-cancellation",
+		Dedup:  !free,
+		Budget: map[string]int{"preempt": preempt, "switch": preempt},
 		Run: func(x *explore.X) (r explore.Result) {
 			cl := clients[x.Choose("client", len(clients))]
 			second := x.Choose("second-caller", 3) // 0 Handshake(), 1 HandshakeContext(ctx2) + cancel2, 2 none
@@ -198,9 +198,9 @@ func ioReadFull(u *tls.UConn, b []byte) (int, error) {
 func c26DataPhase(preempt int) *explore.Scenario {
 	clients := c26Clients()
 	return &explore.Scenario{
-		Name:    "reader-writer-close",
-		Dedup:   true,
-		Budget:  map[string]int{"preempt": preempt, "switch": preempt},
+		Name:   "reader-writer-close",
+		Dedup:  true,
+		Budget: map[string]int{"preempt": preempt, "switch": preempt},
 		Run: func(x *explore.X) (r explore.Result) {
 			cl := clients[x.Choose("client", len(clients))]
 			closer := x.Choose("closer", 3) // 0 Close, 1 CloseWrite, 2 none
@@ -296,9 +296,9 @@ func c26DataPhase(preempt int) *explore.Scenario {
 func c26WriteVsHandshake(preempt int) *explore.Scenario {
 	clients := c26Clients()
 	return &explore.Scenario{
-		Name:    "write-vs-handshake-vs-close",
-		Dedup:   true,
-		Budget:  map[string]int{"preempt": preempt, "switch": preempt},
+		Name:   "write-vs-handshake-vs-close",
+		Dedup:  true,
+		Budget: map[string]int{"preempt": preempt, "switch": preempt},
 		Run: func(x *explore.X) (r explore.Result) {
 			cl := clients[x.Choose("client", len(clients))]
 			withClose := x.Choose("close", 2) == 1
